@@ -194,6 +194,11 @@ pub enum Mode {
     Quiet = 2,
     /// registration / setup phase: like Quiet (systems are not expected to run)
     Build = 3,
+    /// happens-before probe for the race detectors (ThreadSanitizer, Miri): a system does nothing
+    /// but read, non-atomically, the plain cells of the systems that must have finished before it
+    /// and then write its own one - and touches no atomic of the harness on the way, so that the
+    /// only synchronisation between two systems is the dispatcher's own
+    Hb = 4,
 }
 
 #[derive(Clone, Copy, PartialEq, Eq, Debug, Hash)]
@@ -264,7 +269,15 @@ pub struct Ctx {
     pub ctl_catches: AtomicBool,
     pub ctl_caught: AtomicU32,
     pub panic_fired: AtomicU32,
+    /// plain (non-atomic) cells of the happens-before probe, one per uid
+    pub hb: HbCells,
+    hb_preds: std::sync::OnceLock<Vec<Vec<u32>>>,
 }
+
+pub struct HbCells(pub Vec<std::cell::UnsafeCell<u64>>);
+// shared on purpose: see `Mode::Hb`
+unsafe impl Sync for HbCells {}
+unsafe impl Send for HbCells {}
 
 impl Ctx {
     pub fn new(n_uids: usize, log_cap: usize) -> Arc<Ctx> {
@@ -296,6 +309,8 @@ impl Ctx {
             ctl_catches: AtomicBool::new(false),
             ctl_caught: AtomicU32::new(0),
             panic_fired: AtomicU32::new(0),
+            hb: HbCells((0..n_uids).map(|_| std::cell::UnsafeCell::new(0)).collect()),
+            hb_preds: std::sync::OnceLock::new(),
         })
     }
 
@@ -305,8 +320,44 @@ impl Ctx {
             0 => Mode::Run,
             1 => Mode::Identify,
             2 => Mode::Quiet,
+            4 => Mode::Hb,
             _ => Mode::Build,
         }
+    }
+
+    /// Installs the "must have finished before" lists (indexed by uid) of the Hb mode.
+    pub fn hb_set(&self, preds: Vec<Vec<u32>>) {
+        let _ = self.hb_preds.set(preds);
+    }
+    /// Hb mode, start of a system: plain reads of the cells of its predecessors and of its own
+    /// cell (its previous run belongs to an earlier dispatch).
+    #[inline(never)]
+    pub fn hb_enter(&self, uid: u32) -> u64 {
+        let mut acc = 0u64;
+        if let Some(p) = self.hb_preds.get() {
+            if let Some(l) = p.get(uid as usize) {
+                for q in l {
+                    // SAFETY (on a correct dispatcher): the writer of this cell has finished and
+                    // its end happens-before our start. A dispatcher that lacks that edge makes
+                    // this a data race - which is exactly what the sanitizer is there to report.
+                    acc = acc.wrapping_add(unsafe { std::ptr::read_volatile(self.hb.0[*q as usize].get()) });
+                }
+            }
+        }
+        acc.wrapping_add(unsafe { std::ptr::read_volatile(self.hb.0[uid as usize].get()) })
+    }
+    /// Hb mode, end of a system: plain write of its own cell.
+    #[inline(never)]
+    pub fn hb_leave(&self, uid: u32, v: u64) {
+        unsafe { std::ptr::write_volatile(self.hb.0[uid as usize].get(), v.wrapping_add(1)) }
+    }
+    /// Hb mode, after a call returned to the caller: everything that ran happened before.
+    pub fn hb_read_all(&self) -> u64 {
+        let mut acc = 0u64;
+        for c in &self.hb.0 {
+            acc = acc.wrapping_add(unsafe { std::ptr::read_volatile(c.get()) });
+        }
+        acc
     }
     pub fn set_mode(&self, m: Mode) {
         self.mode.store(m as u8, SeqCst);
